@@ -11,12 +11,13 @@
    T  A + keyword arguments of every call in reverse order
    R  A + the first positional argument of a call hoisted into a temporary when it is itself a call
    M  A + an unrelated method added to every class and an unrelated function to every module
-   DEHGKOCTRM  all of them together
+   F  A + every plain f-string written as a concatenation: f"results_{e}" -> "results_" + str(e)
+   DEHGKOCTRMF  all of them together
 Every check must stay silent (exit 0) on each of them."""
 import ast
 import os
 
-KINDS = ["A", "B", "C", "D", "E", "H", "G", "K", "O", "T", "R", "M", "DEHGKOCTRM"]
+KINDS = ["A", "B", "C", "D", "E", "H", "G", "K", "O", "T", "R", "M", "F", "DEHGKOCTRMF"]
 
 
 class Renamer(ast.NodeTransformer):
@@ -234,7 +235,31 @@ class AddMethod(ast.NodeTransformer):
         return node
 
 
-PASSES = {"B": lambda: Renamer(), "D": lambda: DeepRenamer(), "C": lambda: Logger(), "E": lambda: MulSwap(), "H": lambda: IfInvert(),
+class FStringConcat(ast.NodeTransformer):
+    """f"a{b}c" -> "a" + str(b) + "c" for f-strings without conversions / format specs (format(b, "") is str(b) for the str, int and
+    float values these strings are built from)"""
+
+    def visit_JoinedStr(self, node):
+        self.generic_visit(node)
+        parts = []
+        for v in node.values:
+            if isinstance(v, ast.Constant) and isinstance(v.value, str):
+                parts.append(v)
+            elif isinstance(v, ast.FormattedValue) and v.conversion == -1 and v.format_spec is None:
+                parts.append(ast.Call(func=ast.Name(id="str", ctx=ast.Load()), args=[v.value], keywords=[]))
+            else:
+                return node
+        if not parts:
+            return node
+        if not any(isinstance(p_, ast.Constant) for p_ in parts[:1]) and len(parts) == 1:
+            return parts[0]
+        out = parts[0]
+        for p_ in parts[1:]:
+            out = ast.BinOp(left=out, op=ast.Add(), right=p_)
+        return out
+
+
+PASSES = {"F": lambda: FStringConcat(), "B": lambda: Renamer(), "D": lambda: DeepRenamer(), "C": lambda: Logger(), "E": lambda: MulSwap(), "H": lambda: IfInvert(),
           "G": lambda: CmpFlip(), "K": lambda: RetTemp(), "O": lambda: MethodReverse(), "T": lambda: KwReverse(), "R": lambda: HoistArg(), "M": lambda: AddMethod()}
 
 
